@@ -469,7 +469,8 @@ namespace
             Plan p;
             int variant = (int)r.below(VAR_N);
             const Alphabet &a = alpha_of(variant);
-            int maxlen = tier == THOROUGH ? (r.chance(1, 8) ? 300 : 48) : (r.chance(1, 10) ? 64 : 20);
+            int maxlen = tier == THOROUGH ? (r.chance(1, 8) ? 700 : 48) : (r.chance(1, 10) ? 64 : 20);
+            if (!faults && tier == QUICK && r.chance(1, 25)) maxlen = 520; // pieces of 256 bytes and more
             int enc = (int)r.below(ENC_N);
             int nframes = (int)r.range(faults ? 2 : 1, faults ? 6 : 5);
             std::vector<Bytes> pls;
@@ -604,6 +605,7 @@ namespace
                     uint8_t crc = ref_crc8(pl);
                     if (crc == a.START || crc == a.STOP || crc == a.STUB) probe("crc_is_marker");
                     if (pl.empty()) probe("empty_payload");
+                    if (pl.size() >= 256) probe("payload_256_or_more");
                     if (!pl.empty() && encd.size() == 2 * pl.size() + 4) probe("max_expansion");
                     if (!pl.empty() && encd.size() >= 2 * pl.size() + 3) probe("all_bytes_escaped");
                     Piece pc;
